@@ -166,6 +166,7 @@ func fieldPath(fieldDescs protoreflect.FieldDescriptors, names ...string) []prot
 
 func (p *path) alive() bool {
 	return len(p.methods) != 0 ||
+		p.methodAll != nil ||
 		len(p.variables) != 0 ||
 		len(p.segments) != 0
 }
